@@ -83,9 +83,11 @@ type layerCfg struct {
 	kind   int
 	handle int
 	// retry
-	maxRetries int
-	returnLast bool
-	abortOnB   bool // AbortOnErrors(errB)
+	maxRetries  int
+	returnLast  bool
+	abortOnB    bool // AbortOnErrors(errB)
+	viaAttempts bool // configured through WithMaxAttempts(maxRetries+1) instead of WithMaxRetries
+	delayFn     bool // WithDelayFunc recording the LastResult/LastError it is shown
 	// breaker
 	threshold uint
 	// fallback
@@ -139,6 +141,8 @@ type world struct {
 	log      []int
 	views    []fnView
 	fbSeen   []outcome
+	dfSeen   []outcome // what retry delay functions were shown
+	rdfSeen  []outcome
 	fbCalls  int
 	cache    *memCache
 	breakers []circuitbreaker.CircuitBreaker[int]
@@ -182,6 +186,8 @@ func chooseCfg(kind int, idx int) layerCfg {
 		c.maxRetries = zzvrt.Choose("retry.maxRetries+1", zzvrt.Param("max_retries", 2)+1+zzvrt.Param("unlimited", 0)) - zzvrt.Param("unlimited", 0)
 		c.returnLast = zzvrt.Choose("retry.returnLast", 2) == 1
 		c.abortOnB = zzvrt.Choose("retry.abortOnB", 2) == 1
+		c.viaAttempts = zzvrt.Param("via_attempts", 0) == 1 && zzvrt.Choose("retry.viaMaxAttempts", 2) == 1
+		c.delayFn = zzvrt.Param("delay_fn", 0) == 1 && zzvrt.Choose("retry.delayFunc", 2) == 1
 	case kBreaker:
 		c.handle = zzvrt.Choose("breaker.handle", zzvrt.Param("handles", nHandle))
 		c.threshold = uint(1 + zzvrt.Choose("breaker.threshold-1", 2))
@@ -209,7 +215,16 @@ func (w *world) build() []failsafe.Policy[int] {
 		i := li
 		switch c.kind {
 		case kRetry:
-			b := retrypolicy.Builder[int]().WithMaxRetries(c.maxRetries)
+			b := retrypolicy.Builder[int]()
+			if c.viaAttempts {
+				if c.maxRetries == -1 {
+					b = b.WithMaxAttempts(-1)
+				} else {
+					b = b.WithMaxAttempts(c.maxRetries + 1)
+				}
+			} else {
+				b = b.WithMaxRetries(c.maxRetries)
+			}
 			switch c.handle {
 			case hErrA:
 				b = b.HandleErrors(errA)
@@ -221,6 +236,12 @@ func (w *world) build() []failsafe.Policy[int] {
 			}
 			if c.abortOnB {
 				b = b.AbortOnErrors(errB)
+			}
+			if c.delayFn {
+				b = b.WithDelayFunc(func(exec failsafe.ExecutionAttempt[int]) time.Duration {
+					w.dfSeen = append(w.dfSeen, outcome{exec.LastResult(), exec.LastError()})
+					return 0
+				})
 			}
 			b = b.OnSuccess(func(e failsafe.ExecutionEvent[int]) { w.ev(i, evSuccess) }).
 				OnFailure(func(e failsafe.ExecutionEvent[int]) { w.ev(i, evFailure) }).
@@ -362,6 +383,9 @@ func (w *world) refLayer(li int, x *refExec) refRes {
 				return refRes{r.o, false}
 			}
 			x.last = r.o
+			if c.delayFn {
+				w.rdfSeen = append(w.rdfSeen, r.o) // the delay is computed from the attempt that just failed
+			}
 			w.rev(li, evRetryScheduled)
 			x.attempts++
 			x.retries++
@@ -567,6 +591,11 @@ func runHistory(w *world, execs int, maxInv int) {
 			zzvrt.Assert(!a.hedge, "stats: IsHedge false without a hedge policy")
 			zzvrt.Assert(a.last.v == b.last.v, "stats: LastResult is the most recent completed attempt's result")
 			zzvrt.Assert(a.last.e == b.last.e, "stats: LastError is the most recent completed attempt's error")
+		}
+		zzvrt.Assert(len(w.dfSeen) == len(w.rdfSeen), "stats: the delay function is consulted once per retry decided")
+		for k := 0; k < len(w.dfSeen) && k < len(w.rdfSeen); k++ {
+			zzvrt.Assert(w.dfSeen[k].v == w.rdfSeen[k].v, "stats: the delay function sees the most recent completed attempt's result")
+			zzvrt.Assert(w.dfSeen[k].e == w.rdfSeen[k].e, "stats: the delay function sees the most recent completed attempt's error")
 		}
 		// ---- fallback (C10)
 		zzvrt.Assert(len(w.fbSeen) == len(w.rfbSeen), "fallback: function applied exactly when the inner outcome is a handled failure")
